@@ -127,18 +127,86 @@ theorem combine_toUnits (s : Str) (hs : ∀ c ∈ s, isScalar c = true) : combin
 theorem parseStr_quote (b : Bs) : parseStr (0x22 :: b) = (scanUnits b).map (fun p => (combine p.1, p.2)) := by
   simp [parseStr]
 
-/-- `unescape_escape`: the literal written for `s`, followed by anything, scans back to `s` and that rest -/
-theorem parseStr_jsonStr (s : Str) (hs : ∀ c ∈ s, isScalar c = true) (rest : Bs) :
+theorem combine_cons_of_next_not_low (h u : Nat) (t : List Nat) (hu : ¬ (0xDC00 ≤ u ∧ u ≤ 0xDFFF)) :
+    combine (h :: u :: t) = h :: combine (u :: t) := by
+  rw [combine]
+  have : ¬ (0xD800 ≤ h ∧ h ≤ 0xDBFF ∧ 0xDC00 ≤ u ∧ u ≤ 0xDFFF) := by omega
+  simp [this]
+
+theorem toUnits_head_not_low (d : Nat) (hd : ¬ (0xDC00 ≤ d ∧ d ≤ 0xDFFF)) :
+    ∃ u t, toUnits d = u :: t ∧ ¬ (0xDC00 ≤ u ∧ u ≤ 0xDFFF) := by
+  by_cases h : d < 0x10000
+  · exact ⟨d, [], toUnits_bmp d h, hd⟩
+  · exact ⟨_, _, toUnits_astral d h, by omega⟩
+
+theorem combine_toUnits_general (s : Str) (h1 : ∀ c ∈ s, c < 0x110000) (h2 : NoPair s) :
+    combine (s.flatMap toUnits) = s := by
+  induction s with
+  | nil => simp [combine]
+  | cons c s ih =>
+    have hc := h1 c (by simp)
+    have h1' : ∀ d ∈ s, d < 0x110000 := fun d hd => h1 d (by simp [hd])
+    have h2' : NoPair s := by
+      cases s with
+      | nil => trivial
+      | cons d s' => exact h2.2
+    have ih' := ih h1' h2'
+    rw [List.flatMap_cons]
+    by_cases hlt : c < 0x10000
+    · rw [toUnits_bmp c hlt, List.singleton_append]
+      by_cases hhi : 0xD800 ≤ c ∧ c ≤ 0xDBFF
+      · cases s with
+        | nil => simp [combine]
+        | cons d s' =>
+          have hd : ¬ (0xDC00 ≤ d ∧ d ≤ 0xDFFF) := fun hl => h2.1 ⟨hhi, hl⟩
+          obtain ⟨u, t, hu, hul⟩ := toUnits_head_not_low d hd
+          rw [List.flatMap_cons, hu, List.cons_append, combine_cons_of_next_not_low c u _ hul]
+          rw [List.flatMap_cons, hu, List.cons_append] at ih'
+          rw [ih']
+      · rw [combine_cons_of_not_high _ _ hhi, ih']
+    · rw [toUnits_astral c hlt]
+      rw [List.cons_append, List.cons_append, List.nil_append]
+      generalize hh : 0xD800 + (c - 0x10000) / 1024 % 1024 = h
+      generalize hl : 0xDC00 + (c - 0x10000) % 1024 = l
+      have ha : 0xD800 ≤ h ∧ h ≤ 0xDBFF := by omega
+      have hb : 0xDC00 ≤ l ∧ l ≤ 0xDFFF := by omega
+      have e : 0x10000 + (h - 0xD800) * 1024 + (l - 0xDC00) = c := by omega
+      rw [combine_pair h l _ ha hb, ih', e]
+
+theorem noPair_of_scalar (s : Str) (hs : ∀ c ∈ s, isScalar c = true) : NoPair s := by
+  induction s with
+  | nil => trivial
+  | cons a s ih =>
+    cases s with
+    | nil => trivial
+    | cons b t =>
+      refine ⟨?_, ih (fun c hc => hs c (by simp [hc]))⟩
+      have := (isScalar_iff a).mp (hs a (by simp))
+      omega
+
+/-- the literal written for `s`, followed by anything, scans back to `s` and that rest -/
+theorem parseStr_jsonStr (s : Str) (hs : okText s) (rest : Bs) :
     parseStr (jsonStr s ++ rest) = some (s, rest) := by
   have hu : ∀ u ∈ s.flatMap toUnits, u < 0x10000 := by
     intro u hu
     simp only [List.mem_flatMap] at hu
     obtain ⟨c, hc, hu⟩ := hu
-    exact toUnits_lt c ((isScalar_iff c).mp (hs c hc)).1 u hu
+    exact toUnits_lt c (hs.1 c hc) u hu
   have : jsonStr s ++ rest = 0x22 :: ((s.flatMap toUnits).flatMap escUnit ++ 0x22 :: rest) := by
     simp [jsonStr, escBody]
   rw [this, parseStr_quote, scanUnits_units _ hu]
-  simp [combine_toUnits s hs]
+  simp [combine_toUnits_general s hs.1 hs.2]
+
+theorem okText_of_scalar (s : Str) (hs : ∀ c ∈ s, isScalar c = true) : okText s :=
+  ⟨fun c hc => ((isScalar_iff c).mp (hs c hc)).1, noPair_of_scalar s hs⟩
+
+/-- the restriction is necessary: an adjacent high + low pair is read back as one astral code point -/
+theorem pair_not_preserved : parseStr (jsonStr [0xD83D, 0xDE00]) = some ([0x1F600], []) := by
+  have h := scanUnits_units [0xD83D, 0xDE00] (by decide) []
+  have e : jsonStr [0xD83D, 0xDE00] = 0x22 :: ([0xD83D, 0xDE00].flatMap escUnit ++ 0x22 :: []) := by
+    simp [jsonStr, escBody, toUnits]
+  rw [e, parseStr_quote, h]
+  simp [combine]
 
 /-! ### the written text is printable ASCII -/
 
